@@ -19,7 +19,20 @@ def run(eng, R):
     R.rule("F1", "arguments reach the parameter of the same name at every resolved call site of the minimizer / fitter / profiler / xy fit classes", 100)
     R.rule("S-snap", "cached uncertainties (asymmetric errors, Hessian, covariance, correlation) restored from a snapshot belong to the state that was saved: every save overwrites "
                      "every entry", 10)
-    from .c08 import check_snapshot_complete
+    from .c08 import ADAPTERS, check_snapshot_complete
+
+    R.rule("S-fixinv", "fixing / releasing / setting a parameter discards the cached Hessian, covariance and correlation (with a fixed parameter they are the inverse on the "
+                       "free sub-block, not the old matrices with a row and column zeroed)", 6)
+    for an in ADAPTERS:
+        ctx = p.find_class(an)
+        for name in ("fix", "release", "set"):
+            f = ctx.find_method(name)
+            if f is None:
+                raise AnalysisError("%s.%s not found" % (an, name))
+            ok = eng.must_call(ctx, f, lambda n: eng.node_calls_self_method(n, {"_invalidate_cache", "reset"}))
+            R.ob("S-fixinv", "%s.%s" % (an, name), ok, eng.where(f),
+                 "%s.%s keeps cached matrices: the covariance for the new set of free parameters is 2 x errordef x inverse of the free sub-block of the Hessian, which differs from the "
+                 "old covariance with rows / columns zeroed whenever the parameter was correlated with a free one" % (an, name))
 
     check_snapshot_complete(eng, R, "S-snap")
 
